@@ -57,8 +57,10 @@ def is_multiple_spec(a, b, axis=None, rtol=1.0e-5, atol=1.0e-8):
 
 
 @contextlib.contextmanager
-def standard_stubs(divpow2=True, is_multiple=True, segment_contains=False):
+def standard_stubs(divpow2=True, is_multiple=True, segment_contains=False, orth=False):
     with contextlib.ExitStack() as st:
+        if orth:
+            st.enter_context(patch.opaque("geometer.utils.math.orth", orth_stub))
         if segment_contains:
             st.enter_context(patch.opaque("geometer.shapes.SegmentTensor.contains", segment_contains_stub))
         if divpow2:
@@ -98,3 +100,28 @@ def segment_contains_stub(self, other, tol=1e-8):
     a, b, p = list(arr[0]), list(arr[1]), list(o)
     det, pz, n1, n2 = segment_contains_formula(None, a, b, p)
     return band(mk_eq0(Sym.const(det)), bnot(mk_eq0(Sym.const(pz))), Sym.const(n1) >= 0, Sym.const(n2) >= 0)
+
+
+def orth_stub(A, dim=None):
+    """relational contract of geometer.utils.math.orth (SVD leaf) for a real (n, k) matrix of full column rank k == dim:
+    the result M (n, k) has orthonormal columns (M^T M == I) spanning the range of A (A == M M^T A).  M consists of fresh
+    symbols constrained only by these relations (recorded as facts of the path)."""
+    R = S.cur()
+    A = _unview(_np.asarray(A))
+    if A.ndim != 2 or dim is None or A.shape[1] != dim:
+        raise S.EngineGap("orth stub: only (n, k) matrices with dim == k")
+    n, k = A.shape
+    M = _np.empty((n, k), dtype=object)
+    for i in range(n):
+        for j in range(k):
+            M[i, j] = R.fresh("free", why="orth basis entry")
+    for a in range(k):
+        for b in range(a, k):
+            t = sum((M[i, a] * M[i, b] for i in range(n)), Sym.const(0)) - (1 if a == b else 0)
+            R.facts.append(mk_eq0(t))
+    MtA = [[sum((M[i, a] * Sym.const(A[i, c]) for i in range(n)), Sym.const(0)) for c in range(k)] for a in range(k)]
+    for i in range(n):
+        for c in range(k):
+            t = sum((M[i, a] * MtA[a][c] for a in range(k)), Sym.const(0)) - Sym.const(A[i, c])
+            R.facts.append(mk_eq0(t))
+    return wrap(M)
